@@ -779,8 +779,10 @@ def one_bit_selects(net):
     if net.op != 's':
         return True
 
-    catlist = [net.args[0][i] for i in net.op_param]
     dest = net.dests[0]
+    # a narrower dest only takes the low selected bits; selecting more would
+    # leave a multi-bit truncating select behind
+    catlist = [net.args[0][i] for i in net.op_param[:len(dest)]]
     dest <<= concat_list(catlist)
 
 
